@@ -2,6 +2,7 @@ import Nstd.Callback.LemmasMonitor
 import Nstd.Callback.LemmasFuel
 import Nstd.Callback.LemmasGhost
 import Nstd.Callback.LemmasTerm
+import Nstd.Callback.LemmasOrder
 /-
   Property C12 — signals reach exactly the connected slots, safely under re-entrancy.
 
@@ -206,6 +207,25 @@ theorem bookkeeping_consistent (P : Prog) (ne nl fuel : Nat) (ops : List Action)
       intro y hy
       have := (hq e g d hd).2.2 y hy
       simp [this]
+
+/-- **The listener side, in order.**  After any history (and, by `orderOK`, at every point inside
+    one): the list of (signal, slot) pairs a listener stores under an emitter is, element by element,
+    the listener's view `lsig` of the specification; that view holds exactly the live connections of
+    the listener to the emitter — `(u, g, x)` is in it iff the connection with uid `u` of that
+    listener to slot `x` is live on signal `g` — sorted by uid, i.e. in order of connection.  So the
+    listener side lists exactly the live connections, oldest first (not only the right number of
+    each pair, as `bookkeeping_consistent` says). -/
+theorem listener_side_exact (P : Prog) (ne nl fuel : Nat) (ops : List Action) :
+    let m := (runOps machine P fuel (Run.init State.fresh ne nl) ops).m
+    let s := (runOps Spec.machine P fuel (Run.init SState.fresh ne nl) ops).m
+    (∀ l li e, m.listeners l = some li → li.sigs e = (s.lsig l e).map (·.2)) ∧
+    (∀ l e u g x, (u, g, x) ∈ s.lsig l e ↔ ({ uid := u, receiver := l, slot := x } : Conn) ∈ (s.sig e g).live) ∧
+    (∀ l e, (s.lsig l e).Pairwise (fun a b => a.1 < b.1)) := by
+  intro m s
+  have h0 : RunRel SimO [] (Run.init State.fresh ne nl) (Run.init SState.fresh ne nl) :=
+    ⟨simO_init, ⟨rfl, rfl, rfl, rfl, rfl⟩, rfl, rfl, rfl, rfl, fun hh => hh⟩
+  have h := (runOps_relO P fuel ops h0).sim
+  exact ⟨h.ls, h.inv.mem, h.inv.sorted⟩
 
 /-- **The fuel is only a device.**  A run of the model that did not exhaust its fuel is the same,
     state, log and all, for every larger fuel (so the theorems above, which hold for every fuel,
